@@ -8,7 +8,7 @@ from bounded.common import outcome
 from bounded import gen
 
 RULE = ("graphs: connect_coding_graph on the built-in filter grid (k = 2, 3, 4) at t = 2 (+ t = 1, 3 thorough); walks of length 5k+2..8k+4 "
-        "from seeded retained starts (quick 2 per graph / thorough 40); EVERY single edit (each position in [k, n-2k), substitution by each "
+        "from seeded retained starts (quick 8 per graph / thorough 40); EVERY single edit (each position in [k, n-2k), substitution by each "
         "other nucleotide, insertion of each nucleotide, deletion): detected <=> corrupted strand is not a walk, w in candidates when detected "
         "== 1 (also with the check of w, length 3), substitutions also with indel handling off; + seeded edit sets with pairwise distance >= "
         "3k+2 on longer walks; non-trivial = every case (one walk with all its single edits)")
@@ -22,7 +22,7 @@ def cases(tier, rng):
         if cfg[0] > 4:
             continue
         for t in ts:
-            for rep in range(2 if tier == "quick" else 40):
+            for rep in range(8 if tier == "quick" else 40):
                 yield {"cfg": i, "t": t, "seed": rng.getrandbits(32), "nt": True}
 
 
